@@ -35,6 +35,21 @@ def do_case(ctx, inp):
     if pts is None:
         if grammar and not safe:
             ctx.fail("safe-grammar-expression-not-in-solver-safe-form", {"model": t})
+        # too many points to enumerate: the first clause on sampled assignments (corners included) — a leaf assignment that
+        # makes the model true, completed by the evaluated truth values, is an in-bounds integer point of the polyhedron
+        # (within the bounds the polyhedron's own columns declare)
+        colb = {v[0]: (v[1], v[2]) for v in avars}
+        for sigma in assignments(ctx.rng, lv, 48):
+            if ref_eval(t, sigma) != 1:
+                continue
+            x = {k: int(b.constant) for k, b in o.evaluate_propositions(sigma).items() if b.constant is not None}
+            x.update(sigma)
+            out = [k for k, (lo_, hi_) in colb.items() if k in x and not (lo_ <= x[k] <= hi_)]
+            if out or not all(row_ok(r, x) for r in rows):
+                ctx.fail("valid-configuration-lost", {"sigma": sigma, "columns_outside_the_polyhedron_s_bounds": out,
+                                                      "column_bounds": {k: list(colb[k]) for k in out}})
+                return
+        ctx.tags["box-too-large-sampled"] += 1
         ctx.skip("box-too-large-for-enumeration")
         return
     ctx.tags["enumerated"] += 1
@@ -145,7 +160,7 @@ def run(ctx):
     accepted_mutants(ctx)
     n_models = (250 if ctx.quick else 1200) * (3 if ctx.search else 1)
     for _ in range(n_models):
-        a, o, t = gen_valid(ctx.rng, ctx.quick, wide_p=0.0, empty_p=0.08)
+        a, o, t = gen_valid(ctx.rng, ctx.quick, wide_p=0.05, empty_p=0.08)
         do_case(ctx, {"ast": a})
     # a stream rich in nested negations over boolean leaves (Not / Imply / XNor of compounds, several levels)
     for _ in range(n_models):
